@@ -170,7 +170,9 @@ class Interp:
             anc = prog.functions.get(anc.parent) if anc.parent else None
         st = _State()
         self._call_depth = 0
-        self.exec_block(func.body, self.top, st)
+        end = self.exec_block(func.body, self.top, st)
+        self.falls_through = end is not None        # some path reaches the end of the body (implicit `return None`)
+        self.end_conds = end.conds if end is not None else None
         self.returns = self.top.returns
 
     # ------------------------------------------------------------------ helpers
